@@ -131,6 +131,11 @@ func (c09) Gen(tier string, seed int64) []fw.Unit {
 			u.I = append([]int64{4, int64(r.Intn(len(c09Fills))), r.Int63(), 2}, u.I...)
 			us = append(us, u)
 		}
+		if i%5 == 1 || i < 6 {
+			u := s.Unit("scale", "large-intermediate-chain")
+			u.I = append([]int64{6, int64(r.Intn(len(c09Fills))), r.Int63(), 2}, u.I...)
+			us = append(us, u)
+		}
 		if i%3 == 0 || i < 12 {
 			u := s.Unit("scale", "enormous")
 			u.I = append([]int64{5, int64(r.Intn(len(c09Fills))), r.Int63(), 1}, u.I...)
@@ -234,12 +239,22 @@ func scaleModel(src barcode.Barcode, res barcode.Barcode, err error, w, h int, f
 	if dims != 1 {
 		oys = cand(h, f*h0)
 	}
-	// cache the source pixels
-	srcPix := make([]color.Color, w0*h0)
-	for y := 0; y < h0; y++ {
-		for x := 0; x < w0; x++ {
-			srcPix[y*w0+x] = src.At(sb.Min.X+x, sb.Min.Y+y)
+	// cache the source pixels (an enormous source, itself a scaled barcode that was
+	// compared with the model before, is read on demand)
+	var srcPix []color.Color
+	if w0 <= 1<<22/h0 {
+		srcPix = make([]color.Color, w0*h0)
+		for y := 0; y < h0; y++ {
+			for x := 0; x < w0; x++ {
+				srcPix[y*w0+x] = src.At(sb.Min.X+x, sb.Min.Y+y)
+			}
 		}
+	}
+	srcAt := func(i int) color.Color {
+		if srcPix != nil {
+			return srcPix[i]
+		}
+		return src.At(sb.Min.X+i%w0, sb.Min.Y+i/w0)
 	}
 	var firstMsg string
 	for _, ox := range oxs {
@@ -257,13 +272,13 @@ func scaleModel(src barcode.Barcode, res barcode.Barcode, err error, w, h int, f
 					var want color.Color
 					if dims == 1 {
 						if x >= ox && x < ox+f*w0 {
-							want = srcPix[(x-ox)/f]
+							want = srcAt((x - ox) / f)
 						} else {
 							want = fill
 						}
 					} else {
 						if x >= ox && x < ox+f*w0 && y >= oy && y < oy+f*h0 {
-							want = srcPix[((y-oy)/f)*w0+(x-ox)/f]
+							want = srcAt(((y-oy)/f)*w0 + (x-ox)/f)
 						} else {
 							want = fill
 						}
@@ -486,6 +501,28 @@ func (p c09) Exec(c *fw.Ctx, u *fw.Unit) {
 			check(src, b, big[r.Intn(len(big))], r.Intn(len(c09Fills)), "")
 		}
 		c.Cover("enormous_requests", fmt.Sprintf("%dD", dims))
+	case 6: // chains through a large intermediate image
+		mids := [][2]int{{65535, 65535}, {65536, 65536}, {70000, 70000}, {1<<17 + 3, 1 << 16}, {1<<20 - 1, 99999}, {66000, 3*h0 + 1}, {3*w0 + 2, 66000}}
+		for _, m := range mids {
+			mw, mh := m[0], m[1]
+			if dims == 1 {
+				mh = 1 + r.Intn(4)
+			}
+			if mw < w0 || (dims != 1 && mh < h0) {
+				continue
+			}
+			mid := check(src, mw, mh, fillIdx, "")
+			if mid == nil {
+				continue
+			}
+			ch := fmt.Sprintf("[%dx%d f%d]", mw, mh, fillIdx)
+			for _, t := range [][2]int{{2 * mw, 2 * mh}, {mw + 5, mh + 1}, {2*mw + 1, 3 * mh}, {1 << 20, 1 << 20}, {1<<31 + 1, 1 << 31}} {
+				if t[0] >= mw && t[1] >= mh {
+					check(mid, t[0], t[1], r.Intn(len(c09Fills)), ch)
+				}
+			}
+		}
+		c.Cover("chain_through_large_intermediate", fmt.Sprintf("%dD", dims))
 	case 4: // chains through an exact, padding-free intermediate
 		for k := 2; k <= 4; k++ {
 			hh := k * h0
